@@ -182,8 +182,12 @@ func (k Keeper) UpdateClient(
 	k.SetClientState(ctx, chainName, newClientState)
 
 	// set new consensus state regardless of if update is valid update
+	// (a TSS header has no height and produces no consensus state)
 	var consensusHeight = header.GetHeight()
-	k.SetClientConsensusState(ctx, chainName, header.GetHeight(), newConsensusState)
+	if consensusHeight == nil {
+		consensusHeight = newClientState.GetLatestHeight()
+	}
+	k.SetClientConsensusState(ctx, chainName, consensusHeight, newConsensusState)
 	k.Logger(ctx).Info(
 		"client state updated",
 		"chain-name", chainName,
